@@ -51,8 +51,8 @@ func TestProp(t *testing.T) {
 	c.Check(t, func(rt *rapid.T) {
 		s := e2.DrawStructural(rt, e2.StructOpt{
 			Env:    progen.EnvOpt{Avoid: c.ActiveSet()},
-			NTypes: 14, EnumChunks: true,
-			Roles:  []string{"hash", "equal"},
+			NTypes: 14, EnumChunks: true, Carriers: true,
+			Roles: []string{"hash", "equal"},
 		})
 		var xfail string
 		var files map[string]string
